@@ -42,6 +42,7 @@ struct position_t
 };
 class symbol_t;
 class expression_t;
+class frame_t;
 class type_t
 {
 public:
@@ -104,6 +105,14 @@ public:
     bool is_array() const { return id >= 3000 && id < 4000; }
 #endif
     type_t get_sub() const { return type_t(id + 10000); }
+#ifdef VERIF_TYPE_CALL
+    /* C02 (expr_call_end): what a call needs of the callee's type - by ghost functions of the type identity, defined by the TU */
+    kind_t get_kind() const;
+    size_t size() const;
+    type_t operator[](uint32_t i) const;
+    static type_t create_process(const frame_t& f);
+    static type_t create_array(type_t sub, type_t size);
+#endif
 #ifdef VERIF_VALUE_LOG
     /* C03: the two textual forms of a type (struct verif_typetext is defined by the TU's stream stub) */
     ::verif_typetext str() const;
@@ -138,6 +147,9 @@ public:
 #else
     int get_name() const { return id; }  /* names are identities here */
     type_t get_type() const { return type_t(2000 + id); }
+#ifdef VERIF_TYPE_CALL
+    void* get_data() const; /* defined by the TU */
+#endif
 #endif
 };
 /* frame_t: resolve(name, out) is a partial map name -> symbol given by ghost tables */
